@@ -20,7 +20,11 @@ pub(crate) mod constants {
         }
     }
 
+    #[cfg(not(all(kani, verif_small_frames)))]
     pub(crate) const MAX_ADU_LENGTH: usize = 253;
+    // solver-based verification of the session glue uses short frames (set only by the /verif harness build)
+    #[cfg(all(kani, verif_small_frames))]
+    pub(crate) const MAX_ADU_LENGTH: usize = 13;
 
     #[cfg(feature = "serial")]
     const fn serial_frame_size() -> usize {
